@@ -19,7 +19,9 @@ PYOP = {'<': _o.lt, '<=': _o.le, '==': _o.eq, '>': _o.gt, '>=': _o.ge,
 VGRID = [None]
 SUFFIXES = {'a', 'alpha', 'b', 'beta', 'rc'}
 VERSIONS = ('1.0', '1.2', '1.5', '1.5.0', '2.0', '0.9', '1.0rc1', '1!1.0',
-            '1!0.5', '1.0.post1', '2.0rc1', '2.0.dev1', '2.0.post1')
+            '1!0.5', '1.0.post1', '2.0rc1', '2.0.dev1', '2.0.post1',
+            # releases that differ only by trailing zeros, with a marker
+            '1.0.0rc1', '1.0.0', '1.0.0.post1', '1.0.0.dev1')
 VERSIONS_THOROUGH = VERSIONS + (
     '2a1', '1.0.0.0', '1', '0', '0.0', '1.0+local.1', 'v1.0', '1.0.dev0',
     '1.0a1.dev2', '1.0.post1.dev3', '2!0.1', '1.10', '1.9', '01.0', '1.0-1',
@@ -88,6 +90,53 @@ def run(ctx):
     _tables(ctx)
     _is_compatible(ctx)
     _predicate(ctx)
+    _history(ctx)
+
+
+def _history(ctx):
+    """A predicate object (and is_compatible) answers the same whatever it
+    was asked before."""
+    from ..core.absint import AbsRaise
+    from ..core.table import history_compare
+    import packaging.version as pv
+    rep, world = ctx.report, ctx.world
+    rep.rule('R17.4', 'no state is shared between calls: a predicate object '
+             'asked about a version answers as a new one would')
+    cls = world.cls(MOD, 'VersionPredicate')
+    compat = world.func(MOD, 'is_compatible')
+
+    def setup(interp):
+        def on_call(i, name, fv, args, kwargs):
+            if name == 'packaging.version.Version' and len(args) == 1 and \
+                    isinstance(args[0], K):
+                try:
+                    return K(pv.Version(args[0].v))
+                except pv.InvalidVersion:
+                    raise AbsRaise(T('exc',
+                                     'packaging.version.InvalidVersion'))
+                except TypeError:
+                    raise AbsRaise(T('exc', 'TypeError'))
+            return NotImplemented
+        interp.on_call = on_call
+    for pred, first, second in (
+            ('>=1.0', '1.0', '1.0rc1'), ('>=1.0', '1.0rc1', '1.0'),
+            ('>=1.0,<2.0', '1.5', '2.0.dev1'), ('==1.0', '1.0', '1.0.0'),
+            ('<2.0', '1!0.5', '0.5'), ('>1.0', '1.0.post1', '1.0'),
+            ('!=1.5', 'bad', '1.5')):
+        history_compare(
+            rep, 'R17.4', 'VersionPredicate.satisfied_by[asked before]',
+            world, lambda i, p=pred: i.get_attr(i.call(cls, [K(p)]),
+                                                'satisfied_by'),
+            ([K(first)], {}), ([K(second)], {}), setup=setup,
+            label='%r asked %r then %r' % (pred, first, second))
+    for a, b in ((('1.0', '1.0.0rc1'), ('1.0', '1.0.0')),
+                 (('1.0', '2.0'), ('2.0', '1.0')),
+                 (('1.0rc1', '1.0'), ('1.0', '1.0rc1'))):
+        history_compare(
+            rep, 'R17.4', 'is_compatible[called before]', world,
+            lambda i: compat, ([K(a[0]), K(a[1])], {}),
+            ([K(b[0]), K(b[1])], {}), setup=setup,
+            label='%r then %r' % (a, b))
 
 
 def _to_int(ctx):
@@ -204,8 +253,12 @@ def _to_tuple(ctx):
 
     def setup(interp):
         interp.types[vs] = 'str'
-        interp.pure_calls.update({'re.sub', 're.Pattern.sub'})
+        interp.pure_calls.update({'re.sub', 're.Pattern.sub',
+                                  'packaging.version.Version',
+                                  'packaging.version.parse'})
         interp.call_raises['int'] = ['ValueError']
+        for n_ in ('packaging.version.Version', 'packaging.version.parse'):
+            interp.call_raises[n_] = ['packaging.version.InvalidVersion']
     old = world.sym_iter_max
     world.sym_iter_max = 5
     try:
@@ -246,7 +299,8 @@ def _to_tuple(ctx):
         return NotImplemented
     grid_compare(rep, 'R17.1', 'convert_version_to_tuple',
                  'version strings with and without pre-release suffixes',
-                 outcomes, {vs: samples}, oracle, hooks=[sub_hook],
+                 outcomes, {vs: samples}, oracle,
+                 hooks=[sub_hook, _version_hook()[0]],
                  value_eq=lambda g, w: tuple(g) == tuple(w),
                  allow=('symbolic iteration bounded',))
 
